@@ -16,10 +16,11 @@ func init() {
 		Assume: []string{"handshaken (server side) = a success CEA was written without error"},
 		Scenarios: []*Scenario{
 			{Name: "server-gate", Weight: 3, Bubble: true, Run: func(e *Env) { smaRun(e, "C10") }},
+			{Name: "client-gate", Weight: 2, Bubble: true, Run: c10Client},
 			{Name: "sweep-histories", Bubble: true, Run: smaSweepHist, SweepN: smaSweepHistN, Exhaustive: true,
 				SweepNote: "all sequences of length <= 4 over {acceptable CER, CER rejected for no common application, CER rejected for security, retransmitted CER, DWR, application request (name-registered), application request (index-registered), application answer, CER whose CEA write fails}"},
 		},
-		MustProbes: []string{"handshake-ok", "cer-rejected", "cea-write-failed", "app-handler-after-handshake", "refused-registration", "cer-retransmission-ignored"},
+		MustProbes: []string{"handshake-ok", "cer-rejected", "cea-write-failed", "app-handler-after-handshake", "refused-registration", "cer-retransmission-ignored", "app-before-cea-blocked", "app-behind-cea-dispatched"},
 	})
 	register(&Property{
 		ID: "C11", Level: "fault_enumeration",
